@@ -3586,6 +3586,12 @@ class _CacheWrapper:
     def __init__(self, immutable_warranty: str = 'pickle'):
         self._serialize, self._deserialize = _get_serialize_and_deserialize(
             immutable_warranty)
+        if immutable_warranty == 'copy':
+            # The value that is written to the cache is also returned to the
+            # user (see CacheDataset.__getitem__). Hence, store a copy,
+            # otherwise a manipulation of the returned value would change the
+            # cached value.
+            self._serialize = deepcopy
         self.cache = {}
 
     def __getitem__(self, item):
